@@ -1234,6 +1234,11 @@ func rootIdent(e ast.Expr) *ast.Ident {
 }
 
 func (x *Exec) eventGhosts(ev *EventSpec, ms *modSet) {
+	for _, c := range ev.Clauses {
+		if c.Kind == "effect-after" {
+			ms.ghosts[c.Target] = true
+		}
+	}
 	if ev.Kind == "send" || ev.Kind == "recv" {
 		ms.ghosts["gClock"] = true
 	}
@@ -1300,6 +1305,9 @@ func (x *Exec) callMods(e *ast.CallExpr, st *State, ms *modSet, invariantExpr fu
 			}
 		}
 		argExprs = append(argExprs, e.Args...)
+		if ev := x.findCallEvent(key); ev != nil {
+			x.eventGhosts(ev, ms)
+		}
 		spec := x.sp.Funcs[key]
 		if spec == nil {
 			return // reported when the call is executed
@@ -1318,6 +1326,9 @@ func (x *Exec) callMods(e *ast.CallExpr, st *State, ms *modSet, invariantExpr fu
 			}
 			if fts != nil {
 				clauses, names, argExprs = fts.Clauses, fts.Params, e.Args
+				if ev := x.findCallEvent("functype " + n.Obj().Name()); ev != nil {
+					x.eventGhosts(ev, ms)
+				}
 			}
 		}
 	}
@@ -1355,12 +1366,19 @@ func (x *Exec) callMods(e *ast.CallExpr, st *State, ms *modSet, invariantExpr fu
 			// conservative: whole component
 			switch {
 			case t.Op == "call" && t.Name == "content":
-				for _, vs := range []string{"Int"} {
-					x.mapComps(st, vs)
-					ms.whole["mdom_"+sortTag(vs)] = true
-					ms.whole["mval_"+sortTag(vs)] = true
+				// the map changes from iteration to iteration (e.g. it is created in the loop):
+				// conservatively, any map of that value sort may have changed
+				vs := "Int"
+				for i, nme := range names {
+					if used[nme] && i < len(argExprs) {
+						if m, ok := types.Unalias(info.TypeOf(argExprs[i])).Underlying().(*types.Map); ok {
+							vs = x.w.sortOf(m.Elem())
+						}
+					}
 				}
-				ms.bad = append(ms.bad, "loop-variant map frame of callee "+t.String()+" (unsupported)")
+				x.mapComps(st, vs)
+				ms.whole["mdom_"+sortTag(vs)] = true
+				ms.whole["mval_"+sortTag(vs)] = true
 			default:
 				ms.bad = append(ms.bad, "loop-variant frame of callee "+t.String()+" (unsupported)")
 			}
@@ -1563,6 +1581,14 @@ func (x *Exec) checkFrame(st *State) {
 				s := envp.eval(t.Args[0])
 				es, _ := x.elemSort(s)
 				targets["arr_"+sortTag(es)] = append(targets["arr_"+sortTag(es)], app("sl_arr", s.T))
+			case t.Op == "call" && t.Name == "anycontent":
+				vs := sortOfName(t.Args[0])
+				if vs == "" {
+					m := envp.eval(t.Args[0])
+					_, _, vs, _ = x.mapParts(scratch, m)
+				}
+				targets["mdom_"+sortTag(vs)] = append(targets["mdom_"+sortTag(vs)], "*")
+				targets["mval_"+sortTag(vs)] = append(targets["mval_"+sortTag(vs)], "*")
 			case t.Op == "call" && t.Name == "anyelems":
 				es := sortOfName(t.Args[0])
 				if es == "" {
